@@ -337,7 +337,7 @@ def c_picker_unreachable(site, fx):
 
 def c_mobility_tables(site, fx):
     # mobility counts are bounded by piece geometry: knight <= 8 < 9, bishop <= 13 < 14, rook <= 14 < 15, queen <= 27 < 28, king zone <= 8 < 9
-    if not (site.family == "bounds" and in_fn(site, "mobility_and_opp_king_safety_for")):
+    if not (site.family == "bounds" and "engine::eval::" in bn(site)):
         return False
     ln = deep_strip(site.ops[0])
     ix = site.ops[1]
